@@ -1,12 +1,14 @@
 #!/bin/sh
 # usage: verify_seed.sh <seed dir with patch.diff + demo.py> [tests]  - confirm in a scratch worktree: demo passes without, fails with the change.
+# The demo is run from <worktree>/_seed/X/demo.py so that paths relative to the worktree (sample files under tests/) resolve.
 d="$1"; wt=/tmp/verify_seed_wt.$$
 git -C /repo worktree add --detach -q "$wt" HEAD || exit 9
+mkdir -p "$wt/_seed/X"
+sed -E "s#^([[:space:]]*)assert .*srctools\.__file__.*#\1pass#; s#/tmp/seed/C[0-9]+#$wt#g" "$d/demo.py" > "$wt/_seed/X/demo.py"
 cd /tmp
-sed -E "s#^([[:space:]]*)assert .*srctools\.__file__.*#\1pass#" "$d/demo.py" > /tmp/vs_demo.$$.py
-echo "--- without change:"; PYTHONPATH=$wt/src:/tmp/shim /venv/bin/python /tmp/vs_demo.$$.py > /tmp/vs_out.$$ 2>&1; echo "exit=$?"; tail -3 /tmp/vs_out.$$
+echo "--- without change:"; PYTHONPATH=$wt/src:/tmp/shim /venv/bin/python "$wt/_seed/X/demo.py" > /tmp/vs_out.$$ 2>&1; echo "exit=$?"; tail -3 /tmp/vs_out.$$
 (cd $wt && (git apply "$d/patch.diff" 2>/dev/null || git apply --3way "$d/patch.diff")) || echo "PATCH DOES NOT APPLY"
-echo "--- with change:"; PYTHONPATH=$wt/src:/tmp/shim /venv/bin/python /tmp/vs_demo.$$.py > /tmp/vs_out.$$ 2>&1; echo "exit=$?"; tail -5 /tmp/vs_out.$$
+echo "--- with change:"; PYTHONPATH=$wt/src:/tmp/shim /venv/bin/python "$wt/_seed/X/demo.py" > /tmp/vs_out.$$ 2>&1; echo "exit=$?"; tail -5 /tmp/vs_out.$$
 if [ -n "$2" ]; then echo "--- tests with change:"; (cd $wt && PYTHONPATH=$wt/src:/tmp/shim /venv/bin/python -m pytest -q -p no:cacheprovider -n 8 $2 2>&1 | tail -3); fi
-rm -f /tmp/vs_out.$$ /tmp/vs_demo.$$.py
+rm -f /tmp/vs_out.$$
 git -C /repo worktree remove --force "$wt"
